@@ -205,6 +205,8 @@ def no_ll(servers):
 
 
 class Checker:
+    private = True       # False: the sandbox's own /etc/nsswitch.conf is read, the lookup order cannot be predicted
+
     def __init__(self, ctx, stats):
         self.ctx, self.stats = ctx, stats
         self.seen = stats.setdefault("signatures", {})
@@ -292,6 +294,8 @@ class Checker:
                 if FIELD_BIT.get(f) in expmask and not (f == "qcache_max_ttl"):
                     continue
                 if f == "rotate" and ({"ROTATE", "NOROTATE"} & expmask):
+                    continue
+                if f == "lookups" and not self.private:
                     continue
                 if field_ok(m, exp, f):
                     continue
@@ -436,6 +440,7 @@ def run_stage(ctx, exe, name, cfg, stats, private, timeout=900):
         if s.get("batch_leak"):
             ctx.violation("c16.leak.unattributed(%s)" % name, "LeakSanitizer reported a leak in %s" % name)
     ctx.log("%s: %d scenarios executed in %.1fs" % (name, len(scns), time.time() - t0))
+    Checker.private = private
     ck = Checker(ctx, stats)
     for sid, (rec, sc, idx) in meta.items():
         stats["executed"] += 1
